@@ -124,37 +124,33 @@ def r3(ctx, rep):
                 if not ok:
                     rep.finding(R3, f'C14.R3/store/{qn}/{t.attr}', m.loc(LEX, st), qn, f'`{astq.u(st)[:50]}` writes an attribute of a lexical item after construction')
     rep.floor('C14.R3', 'attribute stores in lex.py', n, 20)
-    for cls, attr, want in (('Lexical', '__setattr__', 'nosetattr(object, cls=LexicalAbcMeta)'), ('Lexical', '__delattr__', 'Emsg.ReadOnly.razr'),
-                            ('LexicalAbc', '__delattr__', 'Emsg.ReadOnly.razr')):
-        raw, _ = m.getraw(ClassRef(LEX, cls), attr)
-        ok = raw is not None and isinstance(raw, tuple) and astq.u(raw[1]) == want
-        rep.instance(R3, ok=ok, nontrivial=(cls, attr))
+    # the guards themselves, folded in the state the package is in after lang.init() (sa.lexfold.fold_readonly)
+    from .. import lexfold
+    res, cons = lexfold.fold_readonly(m)
+    rep.consult(*cons)
+    for ok, case, detail in res:
+        rep.instance(R3, ok=ok, nontrivial=('readonly', case))
         if not ok:
-            rep.finding(R3, f'C14.R3/{cls}.{attr}', m.relfile(LEX), f'{cls}.{attr}', f'is no longer `{want}`')
-    sa_ = m.func(LEX, 'LexicalAbc.__setattr__')
-    txt = astq.u(sa_)
-    ok = "getattr(LexicalAbc, '_readonly', False)" in txt and 'raise Emsg.ReadOnly(self, name)' in txt and 'super().__setattr__(name, value)' in txt
-    rep.instance(R3, ok=ok, nontrivial='LexicalAbc.__setattr__')
-    rep.consult(m.loc(LEX, sa_) + ' LexicalAbc.__setattr__')
-    if not ok:
-        rep.finding(R3, 'C14.R3/LexicalAbc.__setattr__', m.loc(LEX, sa_), 'LexicalAbc.__setattr__', 'no longer refuses to change an existing attribute once read-only mode is on')
+            rep.finding(R3, f'C14.R3/readonly/{case}', m.relfile(LEX), case.split(':')[0], f'{case}: {detail}')
+    # Argument: an attribute can be set once
     asa = m.func(COL, 'Argument.__setattr__')
-    ok = 'if hasattr(self, attr)' in astq.u(asa) and 'raise AttributeError(attr)' in astq.u(asa)
+    rep.consult(m.loc(COL, asa) + ' Argument.__setattr__')
+    ita = Interp(dict(AttributeError=AttributeError, hasattr=hasattr, super=lambda *a: Obj('super', __setattr__=lambda n_, v_: None)), where='Argument.__setattr__')
+    a1 = Obj('argument', title='T')
+    r1_ = ita.safe(asa, [a1, 'title', 'OTHER'])
+    r2_ = ita.safe(asa, [Obj('argument'), 'title', 'T'])
+    ok = isinstance(r1_, Raises) and not isinstance(r2_, Raises)
     rep.instance(R3, ok=ok, nontrivial='Argument.__setattr__')
     if not ok:
-        rep.finding(R3, 'C14.R3/Argument.__setattr__', m.loc(COL, asa), 'Argument.__setattr__', 'an argument\'s attributes can be reassigned')
-    src = m.sources[LANG]
-    ok = 'for cls in (LangCommonEnum, LexicalAbc, Predicates, Argument, Lexical):\n        cls._readonly = True' in src and 'lex.nosetattr.enabled = True' in src
-    rep.instance(R3, ok=ok, nontrivial='init-readonly')
+        rep.finding(R3, 'C14.R3/Argument.__setattr__', m.loc(COL, asa), 'Argument.__setattr__', f'reassigning an attribute gives {r1_!r}, the first assignment {r2_!r}; expected AttributeError / accepted')
+    itc = Interp(dict(id=id), where='Lexical.__copy__')
+    cp, dc = m.func(LEX, 'Lexical.__copy__'), m.func(LEX, 'Lexical.__deepcopy__')
+    item = Obj('item')
+    memo = {}
+    ok = itc.safe(cp, [item]) is item and itc.safe(dc, [item, memo]) is item
+    rep.instance(R3, ok=ok, nontrivial='copy-is-identity')
     if not ok:
-        rep.finding(R3, 'C14.R3/lang.init', m.relfile(LANG), 'lang.__init__ init()', 'read-only mode is no longer switched on for the lexical classes at import')
-    for cls in ('Lexical',):
-        cp = m.func(LEX, f'{cls}.__copy__')
-        dc = m.func(LEX, f'{cls}.__deepcopy__')
-        ok = 'return self' in astq.u(cp) and 'return self' in astq.u(dc)
-        rep.instance(R3, ok=ok, nontrivial='copy-is-identity')
-        if not ok:
-            rep.finding(R3, 'C14.R3/Lexical.__copy__', m.loc(LEX, cp), 'Lexical.__copy__/__deepcopy__', 'copying an (immutable) item no longer returns the item itself')
+        rep.finding(R3, 'C14.R3/Lexical.__copy__', m.loc(LEX, cp), 'Lexical.__copy__/__deepcopy__', 'copying an (immutable) item no longer returns the item itself')
 
 
 def r4(ctx, rep):
